@@ -54,10 +54,7 @@ def replay(path):
     d, rp = replaylib.load(path, PID)
     replaylib.need(rp, path, 'org', 'len', 'start', 'stack', 'clear', 'opts', 'fmt', 'key', 'm128')
     if 'gen' in rp:
-        try:
-            g, rnd = loaddrv.regen(rp['gen'])
-        except Exception as e:
-            raise MachineryError('unusable replay file %s: generator state: %s: %s' % (path, type(e).__name__, e))
+        g, rnd = loaddrv.regen(rp['gen'])
         got = (g['org'], g['size'], g['start'], g['stack'], g['clear'], g['opts'], g['fmt'])
         want = (rp['org'], rp['len'], rp['start'], rp['stack'], rp['clear'], rp['opts'], rp['fmt'])
         if got != want:
@@ -69,7 +66,8 @@ def replay(path):
             raise MachineryError('unusable replay file %s: the program is larger than 300 bytes and its bytes were not recorded' % path)
     wd = workdir('replay-c12')
     cbuild.preload()
-    c = loaddrv.run_case(wd, 0, g, rnd)
+    # same scratch file number as in the recorded run: bin2tap names the program on the tape after its input file
+    c = loaddrv.run_case(wd, rp.get('gen', {}).get('k', 0), g, rnd)
     c.pop('ramfull', None)
     if c['key'] != rp['key']:
         raise MachineryError('replay of %s: rebuilt configuration %s is not the recorded %s' % (path, c['key'], rp['key']))
